@@ -21,12 +21,20 @@ from .worlds import World, build_sim, make_config, make_env, mk_base, mk_station
 class GridWorld(World):
     name = "W-grid"
 
-    def __init__(self, pairs: bool = False, name: str = "", low_energy: bool = True):
+    def __init__(self, pairs: bool = False, name: str = "", low_energy: bool = True, auto: bool = False):
         super().__init__()
         self.pairs = pairs
+        self.auto = auto
         if name:
             self.name = name
-        cfg = make_config(step=60, cancel=240, idle_timeout=100000)
+        elif auto:
+            self.name = "W-grid/auto"
+        # auto: the default control stack (Dispatcher + ChargingFleetManager + the drivers' own time-outs) runs the fleet on the
+        # street grid; the environment only decides when the two requests arrive
+        cfg = make_config(step=60, cancel=240, idle_timeout=100000) if not auto else make_config(
+            step=60, cancel=300, idle_timeout=120,
+            dispatcher={"matching_range_km_threshold": 0.0, "charging_range_km_threshold": 1.0, "charging_range_km_soft_threshold": 6.0,
+                        "base_charging_range_km_threshold": 200.0, "max_search_radius_km": 20.0})
         self.env = make_env(cfg)
         env = self.env
         rn = build(("grid", (100, 10, 100, 10, 40, 40, 40), (1, 1, 1, 1, 1, 1.5, 1), ()))
@@ -69,13 +77,19 @@ class GridWorld(World):
             ("ChargeBase", "b0", "LEVEL_2"), ("Reposition", "5-2"), ("Reposition", "1-0"),
         ]
         self.controller_menu = [("I", k[0], vid) + tuple(k[1:]) for vid in ("v0", "v1", "v2") for k in per_vehicle]
+        if auto:
+            from nrel.hive.dispatcher.instruction_generator.charging_fleet_manager import ChargingFleetManager
+            from nrel.hive.dispatcher.instruction_generator.dispatcher import Dispatcher
+
+            self.builtin_generators = (Dispatcher(cfg.dispatcher), ChargingFleetManager(cfg.dispatcher))
+            self.controller_menu = []
         self.atomic_menu = self.controller_menu
         self.atomic_pairs = False
         self.pair_menu = []
 
     @property
     def idle_clip(self) -> int:
-        return 0
+        return World.idle_clip.fget(self) if self.auto else 0
 
 
 def make(**kw):
